@@ -27,6 +27,8 @@ theorem of lean/Operon/Props/C18.lean that consumes it:
                        calls, valid); the folded protein must be the validator's last answer, DEGRADED carries none.
   * threadTable      : provider call j of a tool loop (3 rounds + final completion) -> which tool executions' results its
                        prompt carries (exactly those of the round before), stub / real Mitochondria / reused nucleus.
+  * hintTable        : spawn i of a never-succeeding swarm -> which summarizer answers its hints carry (exactly the one
+                       for the worker before it); swarmBookkeeping: events / workers one call adds (fresh and reused).
   * feedTable        : retry i -> which earlier attempts' validator traces / raw outputs its error context carries
                        (must be exactly attempt i-1), on a fresh loop and on the second call of a used one.
 
@@ -311,6 +313,51 @@ def tool_point(nu, providers, n):
         _, nuc2 = _tool_run(nu, providers, {"max_iterations": 3})
         routes.append(_tool_run(nu, providers, {"max_iterations": n}, nuc=nuc2)[0])
         return routes[0] if len(set(routes)) == 1 else None
+    except Exception:
+        return None
+
+
+def hint_points(rs):
+    """spawn i of a never-succeeding swarm (max_regenerations 3) -> which summarizer answers its memory hints carry
+    (exactly the one given for the worker before it), plus the bookkeeping of the call: (apoptosis events,
+    regeneration events, total_workers_spawned); a fresh swarm and the second call on a used one (events accumulate,
+    so the second call is compared by its increments)"""
+    def one(sw):
+        seen = []
+        n = [0]
+        before = (len(sw._apoptosis_events), len(sw._regeneration_events), sw._worker_counter)
+
+        class W:
+            def __init__(self, name):
+                self.id, self.memory = name, rs.WorkerMemory()
+
+            def step(self, task):
+                n[0] += 1
+                return f"out {n[0]}"
+
+        def fac(name, hints):
+            seen.append(list(hints))
+            return W(name)
+        k = [0]
+
+        def summ(mem):
+            k[0] += 1
+            return [f"hint-{k[0] - 1}-end"]
+        sw.worker_factory, sw.summarizer = fac, summ
+        res = sw.supervise("t")
+        if res.success or len(seen) != 4:
+            return None
+        after = (len(sw._apoptosis_events), len(sw._regeneration_events), sw._worker_counter)
+        vis = [[j for j in range(6) if f"hint-{j}-end" in h] for h in seen]
+        return vis, tuple(a - b for a, b in zip(after, before)), res.total_workers_spawned - before[2]
+    try:
+        a = one(_mk_swarm(rs, max_regenerations=3, max_steps_per_worker=2))
+        sw = _mk_swarm(rs, max_regenerations=3, max_steps_per_worker=2)
+        one(sw)
+        b = one(sw)
+        if a is None or a != b or a[2] != 4:
+            return None
+        return a[0], a[1]
     except Exception:
         return None
 
@@ -638,6 +685,14 @@ def render(cl, rs, nu, providers):
     table("threadTable", "provider call j (three tool rounds, then the final completion) ↦ tool executions whose results its prompt carries",
           "Nat × Option (List Nat)",
           [f"({j}, {_opt(pt, lst)})" for j, pt in enumerate(thread_points(nu, providers))])
+    hp = hint_points(rs)
+    table("hintTable", "spawn i of a never-succeeding swarm (max_regenerations 3) ↦ summarizer answers its hints carry",
+          "Nat × Option (List Nat)",
+          [f"({i}, {_opt(None if hp is None else hp[0][i], lst)})" for i in range(4)])
+    L.append("/-- (apoptosis events, regeneration events, workers) one such call adds -/")
+    L.append("def swarmBookkeeping : Option (Nat × Nat × Nat) := "
+             + ("none" if hp is None else f"(some ({hp[1][0]}, {hp[1][1]}, {hp[1][2]}))"))
+    L.append("")
     d = defaults(cl, rs, nu, providers, S)
     L.append("/-- limits as the classes declare them when the caller does not name them -/")
     L.append(f"def defaultMaxRetries : Option Int := {_opt(d['max_retries'], _int)}")
@@ -656,7 +711,7 @@ def render(cl, rs, nu, providers):
 def run(lean_dir: Path, write_if_changed, cl, rs, nu, providers) -> list[dict]:
     text, info = render(cl, rs, nu, providers)
     changed = write_if_changed(Path(lean_dir) / "Operon/Gen/LoopTables.lean", text)
-    points = len(LIMS) * 2 + len(SLIMS) ** 2 + len(MARKER_PROBES) + len(PATTERNS) * len(THRS) + 3 + len(TRACES) + len(PREFIX_LENS) + FEED_N + 6 + 4 + 7
+    points = len(LIMS) * 2 + len(SLIMS) ** 2 + len(MARKER_PROBES) + len(PATTERNS) * len(THRS) + 3 + len(TRACES) + len(PREFIX_LENS) + FEED_N + 6 + 4 + 5 + 7
     return [{"id": "eval-loops", "facts_changed": bool(changed), "points": points, "poisoned": info["poisoned"]}]
 
 
